@@ -8,7 +8,7 @@ cp -r /verif/tools $W/tools; cp -r /verif/lean $W/lean
 cd $W
 seeds="$@"; [ -z "$seeds" ] && seeds=$(ls -d /verif/seeded/*/ | xargs -n1 basename)
 for s in $seeds; do
-  pf=/verif/seeded/$s/patch.diff; [ -f "$pf" ] || continue
+  pf=/verif/seeded/$s/patch.diff; [ -f "$s" ] && pf="$s"; [ -f "$pf" ] || continue
   rm -rf $W/r; mkdir -p $W/r; cp -r /repo/include $W/r/include
   (cd $W/r && git init -q . 2>/dev/null && git apply -p1 "$pf" 2>/dev/null) || { echo "$s: patch does not apply to the current tree"; continue; }
   g1=$(VERIF_REPO=$W/r python3 tools/gen_layout.py | grep -c ERROR)
@@ -16,6 +16,7 @@ for s in $seeds; do
   g3=$(VERIF_REPO=$W/r python3 tools/gen_store.py | grep -c ERROR)
   g4=$(VERIF_REPO=$W/r python3 tools/gen_casts.py | grep -c ERROR)
   b=$(cd lean && lake build MultiProofs.GenTie MultiProofs.GenTieIter MultiProofs.GenTieStore MultiProofs.GenTieCast 2>&1 | grep -c "^error")
+  if [ -n "${TIE_VERBOSE:-}" ]; then for g in gen_layout gen_iters gen_store gen_casts; do VERIF_REPO=$W/r python3 tools/$g.py | grep ERROR | cut -c1-300; done; (cd lean && lake build MultiProofs.GenTie MultiProofs.GenTieIter MultiProofs.GenTieStore MultiProofs.GenTieCast 2>&1 | grep "^error" | cut -c1-200); fi
   if [ "$g1$g2$g3$g4" != "0000" ]; then echo "$s: BROKEN (translator error: layout=$g1 iters=$g2 store=$g3 casts=$g4)"; elif [ "$b" != "0" ]; then echo "$s: BROKEN (tie proof fails)"; else echo "$s: tie holds"; fi
 done
 rm -rf $W
